@@ -34,6 +34,19 @@ pub fn exec(w: &mut World, name: &str, op: &Value) -> R<Value> {
 thread_local! {
     // memo of e(P1, Ppub-s) / e(Ppub-e, P2) in the reference (pure function of the key bytes)
     static G_CACHE: RefCell<HashMap<Vec<u8>, Option<F12>>> = RefCell::new(HashMap::new());
+    // memo of reference verdicts (pure functions of the delivered bytes): the genuine delivery is
+    // repeated around every faulted one
+    static REF_DEC: RefCell<HashMap<Vec<u8>, Result<Vec<u8>, &'static str>>> = RefCell::new(HashMap::new());
+    static REF_VER: RefCell<HashMap<Vec<u8>, bool>> = RefCell::new(HashMap::new());
+}
+
+fn memo_key(parts: &[&[u8]]) -> Vec<u8> {
+    let mut k = vec![];
+    for p in parts {
+        k.extend_from_slice(&(p.len() as u32).to_le_bytes());
+        k.extend_from_slice(p);
+    }
+    k
 }
 
 fn order() -> BigUint {
@@ -340,6 +353,19 @@ fn sign(w: &mut World, op: &Value) -> R<Value> {
     Ok(json!({"class": class.as_str(), "draws": log.offered.len()}))
 }
 
+fn ref_verdict_uncached(ppubs: &[u8], id: &[u8], msg: &[u8], sig: &[u8]) -> bool {
+    let (g, q) = match (g_sign(ppubs), g2_unwire(ppubs)) {
+        (Some(g), Some(q)) => (g, q),
+        _ => return false,
+    };
+    let h = BigUint::from_bytes_be(&sig[..32]);
+    let s = match rsm9::with(|p| p.g1_decode(&sig[32..])) {
+        Some(s) => s,
+        None => return false,
+    };
+    rsm9::with(|p| p.verify(&g, &q, id, msg, &h, &s))
+}
+
 fn verify(w: &mut World, op: &Value) -> R<Value> {
     let ppubs = w.slot_of(op, "ppubs")?;
     let id = w.slot_of(op, "id")?;
@@ -351,6 +377,21 @@ fn verify(w: &mut World, op: &Value) -> R<Value> {
         if sig.len() != 97 {
             return false;
         }
+        let mk = memo_key(&[&ppubs, &id, &msg, sig]);
+        if let Some(v) = REF_VER.with(|c| c.borrow().get(&mk).copied()) {
+            return v;
+        }
+        let v = ref_verdict_uncached(&ppubs, &id, &msg, sig);
+        REF_VER.with(|c| {
+            let mut c = c.borrow_mut();
+            if c.len() > 4096 {
+                c.clear();
+            }
+            c.insert(mk, v);
+        });
+        v
+    };
+    let _unused = |sig: &[u8]| -> bool {
         let (g, q) = match (g_sign(&ppubs), g2_unwire(&ppubs)) {
             (Some(g), Some(q)) => (g, q),
             _ => return false,
@@ -484,7 +525,21 @@ fn decrypt(w: &mut World, op: &Value) -> R<Value> {
     let ref_on_reject = op.get("ref_on_reject").and_then(|v| v.as_bool()).unwrap_or(true);
     let case = fnv(&[b"sm9dec", &dew, &id, &ct]);
     let de_ref = g2_unwire(&dew).ok_or("decrypt: de wire")?;
-    let ref_dec = |ct: &[u8]| rsm9::with(|p| p.decrypt(&de_ref, &id, ct));
+    let ref_dec = |ct: &[u8]| -> Result<Vec<u8>, &'static str> {
+        let mk = memo_key(&[&dew, &id, ct]);
+        if let Some(v) = REF_DEC.with(|c| c.borrow().get(&mk).cloned()) {
+            return v;
+        }
+        let v = rsm9::with(|p| p.decrypt(&de_ref, &id, ct));
+        REF_DEC.with(|c| {
+            let mut c = c.borrow_mut();
+            if c.len() > 4096 {
+                c.clear();
+            }
+            c.insert(mk, v.clone());
+        });
+        v
+    };
     if gs(op, "impl")? == "ref" {
         let r = ref_dec(&ct);
         if let (Ok(m), Some(out)) = (&r, gs_opt(op, "out")) {
